@@ -17,6 +17,7 @@ import multiprocessing as mp
 import os
 import random
 import shutil
+import subprocess
 import sys
 import tempfile
 import time
@@ -34,6 +35,70 @@ OTHER = b"an unrelated file in the output directory\n"
 
 def bk_bytes(i):
     return ("pre-existing backup number %d\n" % i).encode() * 2
+
+
+# ---- environment faults (spec: Fault / EnvFail): how a directory is made to refuse new entries for THIS process.
+# An ordinary user: chmod 0555.  root ignores permission bits, so for root the directory gets the immutable flag
+# (chattr +i; applies to root as well).  None: neither is possible here, the "*_ro" faults cannot be bound.
+_RO = "unprobed"
+
+
+def ro_method(probe_root=None):
+    """probe once (in the parent, before forking) how a directory can be made read-only for this process"""
+    global _RO
+    if _RO != "unprobed":
+        return _RO
+    if os.geteuid() != 0:
+        _RO = "chmod"
+        return _RO
+    _RO = None
+    if shutil.which("chattr") and probe_root is not None:
+        d = Path(probe_root) / ("ro_probe_%d" % os.getpid())
+        try:
+            d.mkdir(parents=True, exist_ok=True)
+            if subprocess.run(["chattr", "+i", str(d)], stdout=subprocess.DEVNULL, stderr=subprocess.DEVNULL).returncode == 0:
+                try:
+                    (d / "x").write_bytes(b"")
+                except OSError:
+                    _RO = "chattr"
+        finally:
+            subprocess.run(["chattr", "-i", str(d)], stdout=subprocess.DEVNULL, stderr=subprocess.DEVNULL)
+            shutil.rmtree(d, ignore_errors=True)
+    return _RO
+
+
+def lock_dir(path):
+    if _RO == "chmod":
+        os.chmod(path, 0o555)
+    elif _RO == "chattr":
+        subprocess.run(["chattr", "+i", str(path)], check=True, stdout=subprocess.DEVNULL, stderr=subprocess.DEVNULL)
+    else:
+        raise c.MachineryError("no way to make a directory read-only for this process (ro_method() = %r)" % (_RO,))
+
+
+def unlock_dir(path):
+    try:
+        if _RO == "chmod":
+            os.chmod(path, 0o755)
+        elif _RO == "chattr":
+            subprocess.run(["chattr", "-i", str(path)], stdout=subprocess.DEVNULL, stderr=subprocess.DEVNULL)
+    except OSError:
+        pass
+
+
+def unlock_tree(root):
+    """directories left locked by children that were killed (timeout) must not survive: the scratch tree is removed later"""
+    if not os.path.isdir(str(root)):
+        return
+    if _RO == "chattr" or (_RO == "unprobed" and os.geteuid() == 0 and shutil.which("chattr")):
+        subprocess.run(["chattr", "-R", "-f", "-i", str(root)], stdout=subprocess.DEVNULL, stderr=subprocess.DEVNULL)
+    elif _RO == "chmod":
+        for d, _, _ in os.walk(str(root)):
+            try:
+                if not os.access(d, os.W_OK):
+                    os.chmod(d, 0o755)
+            except OSError:
+                pass
 
 
 class InjectedCrash(Exception):
@@ -224,8 +289,12 @@ class _Handle:
 class Interposer:
     """wraps the stage functions of one program; records one event per completed stage; raises the planned exception"""
 
-    def __init__(self, prog, plan, exc, snap):
+    def __init__(self, prog, plan, exc, snap, fault=None, apply_fault=None):
         self.prog, self.plan, self.exc, self.snap = prog, plan, exc, snap
+        # environment fault of the specification (Fault(k) before stage s): {"stage": s, "what": k}; applied for real by
+        # apply_fault(k) the first time the boundary "before s" is reached
+        self.fault, self.apply_fault, self.fault_done = fault, apply_fault, False
+        self.entered = []         # like active, but also the stages that are not wrapped as a whole (open, popen)
         self.events = []
         self.active = []          # stack of stages entered and not left
         self.done = []            # stages completed (first completion order)
@@ -237,7 +306,16 @@ class Interposer:
         self.fake_exdev = False
 
     # ---- crash / events
+    def maybe_fault(self, stage, when):
+        if self.fault and not self.fault_done and when == "before" and self.fault["stage"] == stage:
+            self.fault_done = True
+            self.apply_fault(self.fault["what"])
+            ev = {"ev": {"kind": "fault", "stage": stage, "when": self.fault["what"]}}
+            ev.update(self.snap())
+            self.events.append(ev)
+
     def maybe_crash(self, stage, when):
+        self.maybe_fault(stage, when)
         if self.plan and not self.fired and self.plan["stage"] == stage and self.plan["when"] == when:
             self.fired = True
             raise (InjectedBaseCrash if self.exc == "BaseException" else InjectedCrash)("injected at %s/%s" % (stage, when))
@@ -268,11 +346,13 @@ class Interposer:
         def wrapper(*a, **k):
             ip.maybe_crash(stage, "before")
             ip.active.append(stage)
+            ip.entered.append(stage)
             try:
                 res = fn(*a, **k)
             finally:
                 pass
             ip.active.pop()
+            ip.entered.pop()
             if primary:
                 ip.stage_done(stage)
                 ip.maybe_crash(stage, "after")
@@ -313,7 +393,9 @@ class Interposer:
 
         def deferred_open(*a, **k):
             ip.maybe_crash("open", "before")
+            ip.entered.append("open")
             fh = orig(*a, **k)
+            ip.entered.pop()
             h = _Handle(fh, ip)
             ip.handles.append(fh)
             try:    # which temp file belongs to this handle (the entry the writer registered for this path)
@@ -339,8 +421,10 @@ class Interposer:
 
         def writer(*a, **k):
             ip.active.append("write")
+            ip.entered.append("write")
             res = orig(*a, **k)
             ip.active.pop()
+            ip.entered.pop()
             ip.stage_done("write")
             ip.maybe_crash("write", "after")
             return res
@@ -354,8 +438,10 @@ class Interposer:
         def write(self_):
             ip.maybe_crash("flush", "before")
             ip.active.append("flush")
+            ip.entered.append("flush")
             res = orig(self_)
             ip.active.pop()
+            ip.entered.pop()
             ip.stage_done("flush")
             ip.maybe_crash("flush", "after")
             return res
@@ -439,7 +525,9 @@ class Interposer:
 
             def popen(*a, **k):
                 ip.maybe_crash("popen", "before")
+                ip.entered.append("popen")
                 fh = builtins.open(*a, **k)
+                ip.entered.pop()
                 ip.handles.append(fh)
                 ip.stage_done("popen")
                 ip.maybe_crash("popen", "after")
@@ -454,8 +542,10 @@ class Interposer:
                     fh.write(text[:max(1, len(text) // 2)])
                     ip.maybe_crash("pwrite", "mid")
                 ip.active.append("pwrite")
+                ip.entered.append("pwrite")
                 res = real_dump(obj, fh, *a, **k)
                 ip.active.pop()
+                ip.entered.pop()
                 ip.stage_done("pwrite")
                 ip.maybe_crash("pwrite", "after")
                 return res
@@ -501,6 +591,9 @@ class World:
         self.dev = case.get("dev", "same")
         self.shm = None
         self.fake_exdev = False
+        # env = "faulty": one environment fault strikes during the run (runs[i]["fault"]); directories locked by it
+        self.env = case.get("env", "stable")
+        self.locked = []
         self.open_handles = {}
         self.inp_bytes = None     # bytes of that input file
         self.input_links = {}     # relative name -> destination of symbolic links that are inputs
@@ -595,6 +688,26 @@ class World:
         if not self.case.get("no_parent"):
             for t in ("out", "out2"):
                 (self.run / self.path_of[t]).parent.mkdir(parents=True, exist_ok=True)
+
+    def apply_fault(self, what):
+        """the environment fault of the specification, for real: the staging directory (tempfile.tempdir of this process) is
+        removed / stops accepting new files, or the directory of the output path stops accepting new entries"""
+        if what == "tmp_gone":
+            shutil.rmtree(self.tmp)
+        elif what == "tmp_ro":
+            lock_dir(self.tmp)
+            self.locked.append(self.tmp)
+        elif what == "out_ro":
+            d = (self.run / self.path_of["out"]).parent
+            lock_dir(d)
+            self.locked.append(d)
+        else:
+            raise c.MachineryError("unknown environment fault %r" % (what,))
+
+    def unlock(self):
+        for d in self.locked:
+            unlock_dir(d)
+        self.locked = []
 
     def add_inputs(self, files):
         for name, src in files.items():
@@ -702,7 +815,7 @@ class World:
                 cont = "missing-temp-file"
             queue.append({"target": self.abs_of.get(rel, "?" + rel), "content": cont})
         loose = []
-        for p in sorted(self.tmp.rglob("*")):
+        for p in (sorted(self.tmp.rglob("*")) if self.tmp.is_dir() else []):
             if p.is_file() and os.path.realpath(p) not in queued:
                 loose.append(self.classify(p.read_bytes()))
         return {"fs": fs, "queue": queue, "loose": sorted(loose)}
@@ -762,7 +875,7 @@ def run_case(case, root, refs):
         first = inputs(case["runs"][0]["input"], w.given(case["runs"][0]["target"]))
         w.input_as_occupant(first[0], first[1], first[2])
     w.setup()
-    info = {"unplanned": [], "unreached": [], "missing_targets": [], "observer_error": None}
+    info = {"unplanned": [], "unreached": [], "missing_targets": [], "observer_error": None, "env_failed": []}
     if DeferredFileWriter().open_files:
         raise c.MachineryError("writer queue not empty at the start of a case")
     cwd = os.getcwd()
@@ -775,7 +888,8 @@ def run_case(case, root, refs):
             prog, files, kw = first if (first is not None and r == 1) else inputs(rn["input"], out)
             w.add_inputs(files)
             w.refs[r] = refs[(rn["input"], r)]
-            head = {"run": r, "var": {"prog": prog, "on": sorted(rn["on"]), "route": w.route, "inout": w.inout, "dev": w.dev},
+            head = {"run": r, "var": {"prog": prog, "on": sorted(rn["on"]), "route": w.route, "inout": w.inout, "dev": w.dev,
+                                      "env": w.env},
                     "target": rn["target"]}
             if case.get("fresh_queue") and r > 1:
                 # a new process: the singleton starts empty, the temp files of the old process stay on disk
@@ -785,7 +899,7 @@ def run_case(case, root, refs):
             ev.update(head)
             ev.update(snap0)
             events.append(ev)
-            ip = Interposer(prog, rn.get("crash"), rn.get("exc", "Exception"), w.snapshot)
+            ip = Interposer(prog, rn.get("crash"), rn.get("exc", "Exception"), w.snapshot, rn.get("fault"), w.apply_fault)
             ip.open_handles, ip.fake_exdev = w.open_handles, w.fake_exdev
             if case.get("instrument", True):
                 try:
@@ -804,7 +918,12 @@ def run_case(case, root, refs):
             except BaseException as exc:  # the program failed by itself
                 if isinstance(exc, (KeyboardInterrupt, SystemExit)) and not isinstance(exc, SystemExit):
                     raise
-                if ip.active:
+                if ip.fault_done:
+                    # the program failed by itself after the environment fault had struck: the specification's EnvFail,
+                    # attributed to the innermost stage that was being executed
+                    st = ip.entered[-1] if ip.entered else (ip.done[-1] if ip.done else "-")
+                    when = "env"
+                elif ip.active:
                     st = ip.active[-1]
                     when = "mid" if st in ("write", "flush", "pwrite") else "inside"
                 elif ip.done:
@@ -812,7 +931,7 @@ def run_case(case, root, refs):
                 else:
                     st, when = "-", "before-any-stage"
                 outcome = {"kind": "crash", "stage": st, "when": when}
-                info["unplanned"].append({"run": r, "stage": st, "when": when, "exc": "%s: %s" % (type(exc).__name__, str(exc)[:300]),
+                info["env_failed" if when == "env" else "unplanned"].append({"run": r, "stage": st, "when": when, "exc": "%s: %s" % (type(exc).__name__, str(exc)[:300]),
                                           "tb": traceback.format_exc()[-1500:]})
             finally:
                 ip.remove()
@@ -823,6 +942,8 @@ def run_case(case, root, refs):
                     pass
             if rn.get("crash") and not ip.fired:
                 info["unreached"].append({"run": r, "crash": rn["crash"]})
+            if rn.get("fault") and not ip.fault_done:
+                info["unreached"].append({"run": r, "crash": {"stage": rn["fault"]["stage"], "when": "fault " + rn["fault"]["what"]}})
             for e in ip.events:
                 e.update(head)
             events.extend(ip.events)
@@ -833,6 +954,7 @@ def run_case(case, root, refs):
     finally:
         os.chdir(cwd)
         tempfile.tempdir = None
+        w.unlock()
         if w.shm is not None:
             shutil.rmtree(w.shm, ignore_errors=True)
     info["cross_device"] = "real (/dev/shm)" if w.shm is not None else ("emulated" if w.fake_exdev else "no")
